@@ -13,7 +13,7 @@ CLAIMED = {
              text="Decides that every offset reaching a Span/Text/TextFragment constructor is built only from token and text boundaries, string lengths and search results (each ± constant, subtraction, cast or foreign index is a reviewed entry), that fragments created from input slices carry the slice's own lower bound, and that token spans are (consumed before, consumed after += lexer length). This rules out the ±1-byte class that ASCII tests cannot see; start <= end, bounds, event order and successful rendering follow only under the assumption that the lexer advances by whole chars.",
              ref="DESIGN.md §5 C04"),
  "C08": dict(technique="constant-argument and dominance rule for Linear values + per-outcome value lineage of Scale::scale + formula shape of linear_scale / scale_to_servings + field-to-field move lineage of every scaled structure",
-             text="Decides which values can be Linear (only ingredient, non-text, non-locked quantities), that Fixed and failed values pass through scale() untouched and default_scale returns the written value, that number / range start / range end are each multiplied by the factor and the servings factor is target / first declared servings, that everything scaling must not touch is a move of the same-named input field and outcome vectors line up with their components, that cookware is never fitted, and that the declared servings order is preserved. That fitting preserves the amount is C09/C12 material; finiteness is not decided.",
+             text="Decides which values can be Linear (only ingredient, non-text, non-locked quantities), that Fixed and failed values pass through scale() untouched and default_scale returns the written value, that number / range start / range end are each multiplied by the factor and the servings factor is target / first declared servings, that everything scaling must not touch is a move of the same-named input field and outcome vectors line up with their components, that cookware is never fitted, and that the declared servings order is preserved. That a fitted range has both ends converted is decided (shared with C09.D5); that fitting preserves the amount otherwise is C09/C12 material; finiteness is not decided.",
              ref="DESIGN.md §5 C08"),
  "C19": dict(technique="kind / field lineage of the FFI mirror on the MIR of the bindings crate (aggregate field sources, push/extend receivers by variable, merge-arm operand pairing)",
              text="Decides that reference kinds, indices, names, amounts, units and notes of the simplified recipe are taken from the same-kind / same-named parts of the core recipe, that dereferencing uses the same-kind vector with the given index, that grouping keys carry the value's own variant, that merging looks the bucket up by the incoming key and adds incoming into stored field by field, and that combine_ingredients is the selection over all indices folding each once. Numerical sums and map order are not decided.",
@@ -22,10 +22,10 @@ CLAIMED = {
              text="Weak: decides that no catalogued check was deleted or downgraded (per-module floors), that every constructed diagnostic reaches a sink with the matching severity and the stage of its module, that a parse-stage error returns no output and keeps only parse diagnostics while other paths keep the output, that validity is has_output and no errors, that parsed fractions pass the zero-denominator rejection, and that the out-of-range test of an intermediate reference is the emptiness of the step-filtered n-th lookup / a comparison with the number of finished sections. It does not decide that a check fires on the right condition, that well-formed recipes are diagnostic-free, or where labels point.",
              ref="DESIGN.md §5 C07"),
  "C13": dict(technique="sibling agreement between the parse-time validator and the accessors (call-graph reach per StdKey arm) + integer arithmetic discipline + mutation/ordering rule on the servings list",
-             text="Partial: decides that each standard key is validated at parse time by the interpretation function its accessor uses and that both metadata styles run it and store servings; that the duration parsers' integer arithmetic is the reviewed, checked set; that the servings list is returned in declaration order and its duplicate test runs on a sorted copy. What each parser accepts is not decided.",
+             text="Partial: decides that each standard key is validated at parse time by the interpretation function its accessor uses and that both metadata styles run it and store servings; that the duration parsers' integer arithmetic is the reviewed, checked set; that the servings list is returned in declaration order and its duplicate test runs on a sorted copy; that tags enter the result only under the non-empty and not-yet-present tests. What each parser accepts is not decided.",
              ref="DESIGN.md §5 C13"),
  "C14": dict(technique="argument lineage of the two parse entry points + must-pass-through of every parsed metadata entry to the event queue + purity of the projection",
-             text="Weak: decides that both entry points build the same parser, share the entry parser metadata_entry, emit every entry it returns, run the same analysis with the same extensions/converter/options, and that the metadata result is the untouched metadata field. That the two block scanners select the same lines — the core of C14 — is not decided.",
+             text="Weak: decides that both entry points build the same parser, share the entry parser metadata_entry, emit every entry it returns, run the same analysis with the same extensions/converter/options, and that the metadata result is the untouched metadata field. That both scanners decide 'a `>>` at the start of a line' from the token stream in the same way (previous token is a Newline token, peeked token is MetadataStart; lines end at the Newline token) is decided; that they select the same lines in every other respect (multi-line blocks, config keys under MODES) is not.",
              ref="DESIGN.md §5 C14"),
  "C06": dict(technique="pairing / ordering / lineage rules on the MIR of the analysis collector (must-pass-through, edge dominance, value lineage by backward slicing)",
              text="Decides structural necessary conditions of referential consistency: step item indices come from the same-kind collector method which returns len(table)-1 of the table it pushed to; content and location tables are pushed in lock-step; references are set from a search that excludes references, and listed back exactly once before the push; the step counter is reset per section and bumped per pushed step; empty sections are not pushed; intermediate references are bounds-checked and step-filtered; every component made a reference also receives the REF modifier; text items are built only under a non-empty test of their value (analysis side) or of the parsed text (step parser side). Name equality, document order and emptiness of steps are not decided.",
@@ -34,7 +34,7 @@ CLAIMED = {
              text="Decides that no path through the grouping functions drops its argument, that every reader of a grouped quantity covers all four stores, that quantity-map inserts cannot silently overwrite (one reviewed finding), that a text value can never be stored into a running total, and that totals are built from the definition plus its referenced_from entries, definitions only, listed-only, keyed by display name. Numerical sums and fit() are not decided.",
              ref="DESIGN.md §5 C10"),
  "C11": dict(technique="C03 inventories restricted to the aisle module + lookup/insert pairing by dominance and key-expression equality + span formula shape",
-             text="Partial: decides the totality clause (reviewed failure sites, arithmetic and loops of the aisle parser/writer), that each insertion into a duplicate-detection set is confined to the not-found outcome of a lookup of the same key with the stored value trimmed like the checked one, and that error spans are pointer offsets of sub-slices of the input. The write/parse round trip and lookup results are not decided.",
+             text="Partial: decides the totality clause (reviewed failure sites, arithmetic and loops of the aisle parser/writer), that each insertion into a duplicate-detection set is confined to the not-found outcome of a lookup of the same key with the stored value trimmed like the checked one, and that error spans are pointer offsets of sub-slices of the input. Lookup: every IngredientInfo takes the first name of its line as common name, the enclosing category, and is stored under the iterated name. The write/parse round trip is not decided.",
              ref="DESIGN.md §5 C11"),
  "C12": dict(technique="rational-function identity between the writer (new_approx) and the reader (Number::value) + edge-dominance of every Some(Fraction) by its limit checks",
              text="Partial: decides that value() of every fraction new_approx can return is the approximated input as a symbolic identity, that each returned fraction is dominated by the positive/finite, whole<=max_whole and |err|<=accuracy*value tests, that the fractional part comes from the max_den-bounded lookup, and that configured limits are clamped. Nearest-fraction choice and all numerics are not decided.",
